@@ -17,6 +17,9 @@ def compare(expected, got):
                     % (expected[1], got["outcome"]))
         if expected[1] == "unexpected" and not (isinstance(got["exc"], RuntimeError) and str(got["exc"]) == "unexpected"):
             return ("execute:unexpected-exception-surfaces-unchanged", "the resolver's RuntimeError('unexpected') was replaced by %r" % (got["exc"],))
+        for cls in (IndexError, KeyError):
+            if expected[1].startswith(cls.__name__) and not isinstance(got["exc"], cls):
+                return ("execute:unexpected-exception-surfaces-unchanged", "the resolver's %s was replaced by %r" % (cls.__name__, got["exc"]))
         return None
     if kind == "request-error":
         if got["outcome"] != "result" or got["result"].data is not None or not got["result"].errors:
